@@ -752,6 +752,26 @@ pub fn scope_event_programs(len: usize, f: &mut dyn FnMut(Vec<Stmt>)) {
             menu.push(vec![wrap_scope(scope_kind, vec![named_literal(form), es(assign(id("j"), int(3)))])]);
         }
     }
+    // the name read from a parameterless function INSIDE a block / branch / loop that shadows it (or not): what a
+    // function body resolved inside the scope says nothing about the same name after it
+    for scope_kind in 0..3 {
+        for shadow in [false, true] {
+            let mut b = Vec::new();
+            if shadow {
+                b.push(let_("i", int(40 + scope_kind as i64)));
+            }
+            b.push(print1(call(func("", &[], vec![es(id("i"))]), vec![])));
+            menu.push(vec![wrap_scope(scope_kind, b)]);
+        }
+    }
+    // a block that declares the name and ENDS IN AN EXIT (antwoord behind a false condition, stop, volgende): the
+    // scope it opened is closed all the same
+    menu.push(vec![es(iff(boolean(false), vec![let_("i", int(9)), Stmt::Return(id("i"))], None))]);
+    menu.push(vec![es(iff(boolean(false), vec![let_("i", int(9)), Stmt::Return(id("i"))], Some(vec![let_("i", int(8)), print1(id("i"))])))]);
+    menu.push(vec![es(whil(boolean(false), vec![let_("i", int(9)), Stmt::Return(id("i"))]))]);
+    menu.push(vec![es(whil(boolean(true), vec![let_("i", int(9)), print1(id("i")), Stmt::Break]))]);
+    menu.push(vec![es(whil(infix(id("once"), Operator::Lt, int(1)), vec![es(assign(id("once"), infix(id("once"), Operator::Add, int(1)))), let_("i", int(9)), Stmt::Continue]))]);
+    menu.push(vec![es(iff(boolean(false), vec![es(func("i", &[], vec![es(int(9))])), Stmt::Return(int(1))], None))]);
     let total = menu.len().pow(len as u32);
     for code in 0..total {
         let mut c = code;
